@@ -1,10 +1,12 @@
 """C07 — tree arithmetic is the point-wise lifting of affine arithmetic."""
 from ..mir import Callee, Resolver, fmt, literals, walk, strip_sites as s, base_type
 from . import prune
+from . import helpers
 from .prune import is_call
 
 LEVEL = 'proof'
 RULES = {
+    'C07.R7': helpers.RULE_TEXT,
     'C07.R1': 'operator agreement: every impl Trt<R> for L involving AffTree reaches only the same trait\'s AffFunc operator (forwarding impls, unary closures, schema update_terminal)',
     'C07.R2': 'operand order: left operand first through forwarding, composition (operand tree = rhs, rewritten tree = self; context ∘ original) and the mixed affine forms (enforced for Sub/Div, free for the commutative Add/Mul)',
     'C07.R3': 'decisions are copied unchanged by the four arithmetic schemas; unary operators touch every terminal and only terminals',
@@ -12,7 +14,7 @@ RULES = {
     'C07.R6': 'graft structure of the composition every binary operator runs (shared with C02.R1/R2): operand edges copied with their own labels, copies paired with the edge targets, schema role by the operand node\'s leaf flag',
     'C07.R4': 'AffFunc operators are element-wise on both fields with the impl\'s own operator, left operand first; Neg negates both fields',
 }
-FLOORS = {'C07.R1': 33, 'C07.R3': 10, 'C07.R4': 17, 'C07.R2': 4, 'C07.R5': 7, 'C07.R6': 8}
+FLOORS = {'C07.R7': 4, 'C07.R1': 33, 'C07.R3': 10, 'C07.R4': 17, 'C07.R2': 4, 'C07.R5': 7, 'C07.R6': 8}
 EXPLANATION = ('Sibling agreement over 4 operators x 8 ownership forms (+Neg) and the element-wise kernels; with C02.R1 (graft structure) the result is defined exactly '
                'when both operands are and its terminal is context.op(original), i.e. left.op(right).')
 DOES_NOT_DECIDE = 'nothing value-level beyond exact arithmetic; pruning on the fly is covered by C03'
@@ -48,6 +50,7 @@ def schema_of(F, generic_args):
 
 
 def run(ctx):
+    helpers.run_for(ctx)
     F = ctx.facts
     SELF, RHS = ('param', 'self'), ('param', 'rhs')
     for b in F.bodies:
